@@ -100,6 +100,9 @@ def analyse(o, fo, orient, frac):
         if not (isinstance(x, SymArr) and x.op == "take"):
             return None
         inner, k = x.args
+        if isinstance(k, SymIdx) and k.op == "compose" and not x.mods:
+            # x[pi[k]] is the same composition of takes as x[pi][k]
+            inner, k = SymArr("take", (inner, k.args[0])), k.args[1]
         if not (isinstance(inner, SymArr) and inner.op == "take" and not inner.mods and not x.mods):
             return None
         base, pi = inner.args
